@@ -380,6 +380,28 @@ def ascii_bound(ctx, rule):
                 if lim != 127:
                     bad = "validate accepts bytes up to %s" % lim
     ctx.ob(rule, "ascii-validate-bound", bad is None and n >= 1, bad or "all bytes <= 0x7F", "tendril fmt ASCII::validate")
+    # every byte is examined: a path that answers true has tested the whole buffer - p1.iter().all(..) / p1.is_ascii() - or, when the
+    # buffer is cut up (align_to: unaligned head, words, tail; chunks_exact + remainder), every part of it
+    bad = None
+    nt = 0
+    for pc in nfq.feasible(pcs):
+        ret = str(pc["ret"])
+        if ret == "false":
+            continue
+        nt += 1
+        pos = [k for k, v in pc["guards"].items() if v is True] + [ret]
+        txt = " ".join(pos)
+        if re.search(r"\bp1\.iter\(\)\.(copied\(\)\.|cloned\(\)\.)?all\(", txt) or "p1.is_ascii()" in txt:
+            continue
+        parts = set(re.findall(r"p1\.align_to(?:::<\w+>)?\(\)\.(\d)\b", txt))
+        if parts:
+            if parts != {"0", "1", "2"}:
+                bad = "validate answers true after examining only part(s) %s of align_to's (head, words, tail): the bytes of the unexamined part may be >= 0x80" % sorted(parts)
+            continue
+        if "chunks_exact" in txt and "remainder()" in txt:
+            continue
+        bad = bad or "validate answers true on a path that has not examined the whole buffer (tests: %s)" % (pos[:2],)
+    ctx.ob(rule, "ascii-validate-examines-every-byte", bad is None and nt >= 1, bad or "%d accepting path(s), each over the whole buffer" % nt, "tendril fmt ASCII::validate")
 
 
 def _const_val(ctx, name):
@@ -534,6 +556,9 @@ def run(ctx):
     ctx.guard("R11.11", "wtf8-validate", lambda: r11_11(ctx))
     ctx.rule("R11.9", "make_owned: inline or shared tendrils become an owned copy of their own bytes; nothing is taken over in place")
     ctx.guard("R11.9", "make_owned", lambda: r11_9(ctx))
+    ctx.rule("R11.13", "= R12.7 under this property: the heap branch of push_bytes_without_validating writes the inserted bytes where the dropped bytes were (stored length - drop_left), like the inline branch - a WTF-8 surrogate join on a long tendril must produce the joined code point, not leave the lead surrogate")
+    from .C12 import r12_7
+    ctx.guard("R11.13", "append-layout", lambda: ctx.under("R11.13", lambda: r12_7(ctx)))
     ctx.rule("R11.10", "an inline tendril is built only from at most MAX_INLINE_LEN bytes (shared with R12.10)")
     from .C12 import r12_10
     ctx.guard("R11.10", "inline-bound", lambda: r12_10(ctx, "R11.10"))
